@@ -126,7 +126,6 @@ def check_dfa_complement(dfa: str, dfa1: str, length: int = 8) -> None:
         for q in answer.F - D.F:
             feedback.append('The state {} should not be final'.format(q))
 
-        feedback = []
         print_feedback(feedback)
     except Exception as e:
         print('Error: {}'.format(e))
